@@ -414,7 +414,7 @@ class SymNumpy(types.ModuleType):
     @staticmethod
     def arange(*a, **k):
         r = _np.arange(*a, **k)
-        if k.get("dtype") in (float, _np.float64, "f8", "float"):
+        if k.get("dtype") is not None and _is_floaty(k.get("dtype")):
             o = _np.empty(r.shape, dtype=object)
             for i, v in enumerate(r):
                 o[i] = Sym(rv(float(v)))
